@@ -39,7 +39,7 @@ Ev == Trace[l]
 SetOf(q) == {q[i] : i \in 1 .. Len(q)}
 MaxK == 8
 
-CfgOf(e) == [range |-> SetOf(e.range), k |-> MaxK, atomic |-> FALSE, ret |-> TRUE]
+CfgOf(e) == [range |-> SetOf(e.range), k |-> MaxK, atomic |-> FALSE, ret |-> TRUE, env |-> TRUE]
 
 TraceInit ==
     /\ l = 2 /\ viol = ""
@@ -105,7 +105,7 @@ TrCallAdd ==
                        SetFrame(Ev.g, "Add", "done", id, r, a) /\ Frozen)
            ELSE IF r \in Abandoned
            THEN AtLine("", SetFrame(Ev.g, "Add", "limbo", id, r, a) /\ Frozen)
-           ELSE IF r \notin {"ok", "dup", "noport", "storage"}
+           ELSE IF r \notin {"ok", "dup", "noport", "storage", "dbwrite"}
            THEN Taint("C14.add.unexpected-error")
            ELSE IF r = "ok" /\ Ev.id # "" /\ Ev.r_id # Ev.id
            THEN Taint("C14.id.not-the-requested-id")
@@ -117,7 +117,16 @@ TrCallAdd ==
 TrCallRemove ==
     /\ IsCall("Remove")
     /\ IF Ev.r_res \in Abandoned THEN AtLine("", SetFrame(Ev.g, "Remove", "limbo", Ev.id, "crash", NoArgs) /\ Frozen)
-       ELSE IF Ev.r_res # "ok" THEN Taint("C14.remove.failed")
+       \* (whether a failed record delete is reported to the caller is not the property's business; the clean-up is)
+       ELSE IF Ev.r_res # "ok" /\ ~(Ev.dbfail /\ Ev.r_res = "dbwrite") THEN Taint("C14.remove.failed")
+       \* dbfail: the driver has replaced the record by a plain key just before the call (the DeleteBucket of this remove
+       \* fails); the record is gone by the environment's doing, everything else of the remove must happen
+       ELSE IF Ev.dbfail
+       THEN AtLine("", /\ pc[Ev.g].op = "idle"
+                       /\ pc' = [pc EXCEPT ![Ev.g] = [op |-> "Remove", step |-> "detach", id |-> Ev.id, h |-> 0, port |-> 0,
+                                                       res |-> "", a |-> NoArgs]]
+                       /\ db' = Del(db, Ev.id)
+                       /\ UNCHANGED <<cfg, torrents, byih, ports, invalid, orphans, reserved, crashed>>)
        ELSE AtLine("", BeginRemove(Ev.g, Ev.id))
 
 TrCallFlag ==
@@ -209,11 +218,11 @@ TrackerOut(c) ==
 StepOf(c) ==
     \/ StepAddTake(c)
     \/ StepAddCheck(c)
-    \/ At(c, "Add", "write") /\ Internal("", AddWrite(c, TRUE))
+    \/ At(c, "Add", "write") /\ Internal(AddWriteViol(c, Rres(c) # "dbwrite"), AddWrite(c, Rres(c) # "dbwrite"))
     \/ At(c, "Add", "insert") /\ Internal("", AddInsert(c, pc[c].a.stopped))
     \/ At(c, "Add", "started") /\ Internal("", AddStarted(c))
     \/ At(c, "Remove", "detach") /\ Internal("", RemDetach(c))
-    \/ At(c, "Remove", "dbdel") /\ Internal("", RemDb(c))
+    \/ At(c, "Remove", "dbdel") /\ Internal("", RemDb(c, TRUE))
     \/ At(c, "Remove", "release") /\ Internal("", RemRelease(c))
     \/ /\ pc[c].step = "lookup"
        /\ LET found == Rres(c) # "notfound" IN Internal(LookupViol(c, found), LookupUpd(c, found))
@@ -253,6 +262,8 @@ ObsViol(e) ==
         ELSE IF av \cap lports # {} THEN "C14.ports.free-and-owned"
         ELSE IF \E p \in cfg.range : p \notin av \cup lports THEN "C14.ports.leaked"
         ELSE IF (av \cup lports) # cfg.range THEN "C14.ports.out-of-range"
+        \* @obligation C14.leak  no torrent keeps running outside the registry (event loops alive = registered torrents)
+        ELSE IF e.loops # Len(e.live) THEN "C14.leak.running-torrent"
         ELSE IF e.nports # Cardinality(av) \/ e.ntorrents # Len(e.live) THEN "C14.ports.stats-disagree"
         ELSE IF ~({o.id : o \in live} \subseteq {o.id : o \in dbo}) THEN "C14.db.torrent-without-record"
         ELSE IF ~(({o.id : o \in dbo} \ {o.id : o \in live}) \subseteq SetOf(e.invalid)) THEN "C14.db.record-without-torrent"
@@ -260,7 +271,9 @@ ObsViol(e) ==
         ELSE IF UNION {SetOf(x.ids) : x \in SetOf(e.byih)} # {o.id : o \in live} THEN "C14.index.differs"
         ELSE IF \E x \in SetOf(e.byih), o \in live : o.id \in SetOf(x.ids) /\ o.ih # x.ih THEN "C14.index.wrong-hash"
         ELSE IF {ObsRec(o) : o \in live} # LiveRecs THEN tag \o ".live"
-        ELSE IF {WithStarted(ObsRec(o), o.started) : o \in dbo} # DbRecs THEN tag \o ".db"
+        \* (records damaged by the driver are compared by id only)
+        ELSE IF {o.id : o \in dbo} # DOMAIN db THEN tag \o ".db"
+        ELSE IF {WithStarted(ObsRec(o), o.started) : o \in {x \in dbo : ~db[x.id].bad}} # {r \in DbRecs : ~db[r.id].bad} THEN tag \o ".db"
         ELSE IF av # ports THEN tag \o ".ports"
         ELSE IF AfterReopen /\ \E o \in live : o.run # "e" /\ ((o.run = "y") # db[o.id].started) THEN "C14.restart.started"
         ELSE ""
